@@ -70,7 +70,8 @@ type spreadGroup struct {
 	allKeys   []string     // topology keys of all DoNotSchedule constraints of the carrier
 	honorAff  bool
 	honorTnt  bool
-	affDiffer bool // the placed copy's required node affinity differs from the original's
+	affDiffer bool   // "all OR-terms of the stored pod" and "first remaining term of the placed copy" differ
+	coreSig   string // signature without minDomains (classification only)
 }
 
 // InterPod is the realisation-independent part of the check.
@@ -83,6 +84,10 @@ type InterPod struct {
 	groups   []*spreadGroup
 	Involved []bool // per pod: carries or is selected by a judged constraint
 	Counters map[string]int
+	// Batch: stored specs of every pod handed to the scheduler in this pass (placed or not); classification only.
+	Batch []*corev1.Pod
+	// Respect: preferences are treated as required until relaxed (classification only).
+	Respect bool
 }
 
 func selectorOf(ls *metav1.LabelSelector) labels.Selector {
@@ -156,6 +161,35 @@ func spreadSelector(p *corev1.Pod, c *corev1.TopologySpreadConstraint) labels.Se
 		}
 	}
 	return sel
+}
+
+// firstTermOnly returns a pod carrying the nodeSelector and only the first required node-affinity term of p.
+func firstTermOnly(p *corev1.Pod) *corev1.Pod {
+	q := &corev1.Pod{ObjectMeta: p.ObjectMeta}
+	q.Spec.NodeSelector = p.Spec.NodeSelector
+	q.Spec.Tolerations = p.Spec.Tolerations
+	if p.Spec.Affinity != nil && p.Spec.Affinity.NodeAffinity != nil && p.Spec.Affinity.NodeAffinity.RequiredDuringSchedulingIgnoredDuringExecution != nil {
+		terms := p.Spec.Affinity.NodeAffinity.RequiredDuringSchedulingIgnoredDuringExecution.NodeSelectorTerms
+		if len(terms) > 0 {
+			q.Spec.Affinity = &corev1.Affinity{NodeAffinity: &corev1.NodeAffinity{RequiredDuringSchedulingIgnoredDuringExecution: &corev1.NodeSelector{NodeSelectorTerms: terms[:1]}}}
+		}
+	}
+	return q
+}
+
+// SpreadCoreSig identifies a spread constraint of pod p up to minDomains and whenUnsatisfiable (classification only).
+func SpreadCoreSig(p *corev1.Pod, c *corev1.TopologySpreadConstraint) string {
+	honorAff := c.NodeAffinityPolicy == nil || *c.NodeAffinityPolicy == corev1.NodeInclusionPolicyHonor
+	honorTnt := c.NodeTaintsPolicy != nil && *c.NodeTaintsPolicy == corev1.NodeInclusionPolicyHonor
+	parts := []string{p.Namespace, c.TopologyKey, fmt.Sprint(c.MaxSkew), spreadSelector(p, c).String(), fmt.Sprint(honorAff), fmt.Sprint(honorTnt)}
+	if honorAff {
+		parts = append(parts, nodeAffinityJSON(p))
+	}
+	if honorTnt {
+		b, _ := json.Marshal(p.Spec.Tolerations)
+		parts = append(parts, string(b))
+	}
+	return strings.Join(parts, "|")
 }
 
 func nodeAffinityJSON(p *corev1.Pod) string {
@@ -254,7 +288,8 @@ func NewInterPod(nodes []IPNode, pods []IPPod, ns map[string]map[string]string) 
 			g := bySig[sig]
 			if g == nil {
 				g = &spreadGroup{sig: sig, key: c.TopologyKey, c: c, matches: map[int]bool{}, allKeys: allKeys, honorAff: honorAff, honorTnt: honorTnt,
-					affDiffer: honorAff && nodeAffinityJSON(p) != nodeAffinityJSON(pods[i].Copy)}
+					affDiffer: honorAff && nodeAffinityJSON(p) != nodeAffinityJSON(firstTermOnly(pods[i].Copy)),
+					coreSig:   SpreadCoreSig(p, &c)}
 				for j := range pods {
 					q := pods[j].Orig
 					if q.Namespace == p.Namespace && sel.Matches(labels.Set(q.Labels)) {
@@ -427,6 +462,111 @@ func (w *InterPod) negativeSuffix(ni int, key string) string {
 	return ":existing-node"
 }
 
+// minWithout: minimum over the domains whose name does not start with prefix.
+func minWithout(full map[string]int, prefix string) (int, bool) {
+	min, any, dropped := int(^uint(0)>>1), false, false
+	for d, c := range full {
+		if strings.HasPrefix(d, prefix) {
+			dropped = true
+			continue
+		}
+		any = true
+		if c < min {
+			min = c
+		}
+	}
+	return min, any && dropped
+}
+
+// minDomainsSibling: some pod of the batch carries a spread constraint identical to g's up to minDomains.
+func (w *InterPod) minDomainsSibling(g *spreadGroup) string {
+	md := func(c *corev1.TopologySpreadConstraint) int32 {
+		if c.MinDomains == nil {
+			return -1
+		}
+		return *c.MinDomains
+	}
+	for _, p := range w.Batch {
+		for i := range p.Spec.TopologySpreadConstraints {
+			c := &p.Spec.TopologySpreadConstraints[i]
+			if c.WhenUnsatisfiable != corev1.DoNotSchedule && !w.Respect {
+				continue
+			}
+			if md(c) != md(&g.c) && SpreadCoreSig(p, c) == g.coreSig {
+				return podRef(p)
+			}
+		}
+	}
+	return ""
+}
+
+// sameKeyConstraints counts the topology constraints on key that shape the placement of pod pi: its own spreads and
+// (anti-)affinity terms still carried by the placed copy, plus required anti-affinity terms of other pods selecting it.
+func (w *InterPod) sameKeyConstraints(pi int, key string) int {
+	cp := w.Pods[pi].Copy
+	n := 0
+	for _, c := range cp.Spec.TopologySpreadConstraints {
+		if c.TopologyKey == key && (c.WhenUnsatisfiable == corev1.DoNotSchedule || w.Respect) {
+			n++
+		}
+	}
+	if a := cp.Spec.Affinity; a != nil {
+		if a.PodAffinity != nil {
+			for _, t := range a.PodAffinity.RequiredDuringSchedulingIgnoredDuringExecution {
+				if t.TopologyKey == key {
+					n++
+				}
+			}
+			if w.Respect {
+				for _, t := range a.PodAffinity.PreferredDuringSchedulingIgnoredDuringExecution {
+					if t.PodAffinityTerm.TopologyKey == key {
+						n++
+					}
+				}
+			}
+		}
+		if a.PodAntiAffinity != nil {
+			for _, t := range a.PodAntiAffinity.RequiredDuringSchedulingIgnoredDuringExecution {
+				if t.TopologyKey == key {
+					n++
+				}
+			}
+			if w.Respect {
+				for _, t := range a.PodAntiAffinity.PreferredDuringSchedulingIgnoredDuringExecution {
+					if t.PodAffinityTerm.TopologyKey == key {
+						n++
+					}
+				}
+			}
+		}
+	}
+	seen := map[string]bool{}
+	for _, a := range w.aa {
+		if a.q == pi && a.key == key && a.p != pi {
+			k := fmt.Sprintf("%s|%d", w.Pods[a.p].Orig.Spec.Affinity.PodAntiAffinity.RequiredDuringSchedulingIgnoredDuringExecution[a.term].String(), 0)
+			if !seen[k] {
+				seen[k] = true
+				n++
+			}
+		}
+	}
+	return n
+}
+
+// noKeyClass names the class of "constraint carrier on a node without the topology label".
+func (w *InterPod) noKeyClass(kind string, pi, ni int, key string) string {
+	if w.sameKeyConstraints(pi, key) >= 2 {
+		// several topology constraints on one key each pick a domain; an empty intersection is represented like
+		// DoesNotExist and accepted by a node (claim) that lacks the label: root cause of the recorded finding
+		return "unsat-conjunction-treated-as-DoesNotExist"
+	}
+	sfx := w.negativeSuffix(ni, key)
+	if sfx == ":existing-node-gets-domain-from-pod-NotIn-requirement" {
+		return "constraint-carrier-on-existing-node-without-topology-label:domain-assumed-from-a-pod's-NotIn-requirement"
+	}
+	return fmt.Sprintf("%s-carrier-on-node-without-topology-key:%s%s", kind, keyKind(key), sfx)
+}
+
 func podRef(p *corev1.Pod) string { return p.Namespace + "/" + p.Name }
 
 // Check judges one concrete world. lbls[i] are the concrete labels of node i in this realisation; nil for a new
@@ -503,7 +643,7 @@ func (w *InterPod) checkAffinity(lbls []map[string]string) []IPFinding {
 		}
 		if !okp {
 			out = append(out, IPFinding{
-				Class:  fmt.Sprintf("affinity-carrier-on-node-without-topology-key:%s%s", keyKind(a.key), w.negativeSuffix(np, a.key)),
+				Class:  w.noKeyClass("affinity", a.p, np, a.key),
 				ID:     fmt.Sprintf("affnokey|%s|%d", p.UID, a.term),
 				What:   fmt.Sprintf("pod %s has a required affinity term with topology key %s but is placed on node %s, which has no such label", podRef(p), a.key, w.Nodes[np].ID),
 				Detail: base,
@@ -611,7 +751,9 @@ func (w *InterPod) eligible(g *spreadGroup, rep int, n *IPNode, l map[string]str
 	if g.honorAff {
 		pod := w.Pods[rep].Orig
 		if rd.placedAffinity {
-			pod = w.Pods[rep].Copy
+			// Karpenter's documented reading: required node-affinity terms are tried one at a time; the placed copy
+			// is governed by its first remaining term only
+			pod = firstTermOnly(w.Pods[rep].Copy)
 		}
 		ok, _ := nodeaffinity.GetRequiredNodeAffinity(pod).Match(&corev1.Node{ObjectMeta: metav1.ObjectMeta{Name: n.ID, Labels: l}})
 		if !ok {
@@ -667,7 +809,7 @@ func (w *InterPod) checkSpread(lbls []map[string]string) []IPFinding {
 			nm := w.Pods[m].Node
 			if _, ok := domain(&w.Nodes[nm], lbls[nm], g.key); !ok {
 				out = append(out, IPFinding{
-					Class:  fmt.Sprintf("spread-carrier-on-node-without-topology-key:%s%s", keyKind(g.key), w.negativeSuffix(nm, g.key)),
+					Class:  w.noKeyClass("spread", m, nm, g.key),
 					ID:     fmt.Sprintf("spreadnokey|%s|%d", w.Pods[m].Orig.UID, gi),
 					What:   fmt.Sprintf("pod %s carries a DoNotSchedule spread constraint on key %s but is placed on node %s, which has no such label", podRef(w.Pods[m].Orig), g.key, w.Nodes[nm].ID),
 					Detail: map[string]any{"pod": podRef(w.Pods[m].Orig), "constraint": g.c, "node": w.Nodes[nm].ID, "nodeLabels": lbls[nm]},
@@ -789,7 +931,12 @@ func (w *InterPod) checkSpread(lbls []map[string]string) []IPFinding {
 						names = append(names, fmt.Sprintf("%s@%s", w.Pods[m].Orig.Name, w.Nodes[w.Pods[m].Node].ID))
 					}
 					class := fmt.Sprintf("spread-maxskew-exceeded:%s%s", keyKind(g.key), quals)
-					if !g.honorAff {
+					// ---- root-cause classification (names the key; never decides the verdict) ----
+					if sib := w.minDomainsSibling(g); sib != "" {
+						class = "spread-maxskew-exceeded:minDomains-lost-when-constraints-differing-only-in-minDomains-share-a-topology-group"
+					} else if minNoFresh, ok := minWithout(full, "fresh-"); ok && (g.c.MinDomains == nil || true) && cntG[d]-minNoFresh <= int(g.c.MaxSkew) && forceZero == "" {
+						class = "spread-maxskew-exceeded:new-node-of-pool-with-Exists-or-NotIn-custom-key-opens-unforeseen-domain"
+					} else if !g.honorAff {
 						// classification only (never the verdict): does the excess vanish when the global minimum is taken
 						// over the domains the carrier itself may use, as if nodeAffinityPolicy were Honor?
 						minOwn, any := int(^uint(0)>>1), false
@@ -813,6 +960,9 @@ func (w *InterPod) checkSpread(lbls []map[string]string) []IPFinding {
 						if any && cntG[d]-minOwn <= int(g.c.MaxSkew) {
 							class = "spread-maxskew-exceeded:nodeAffinityPolicy=Ignore:minimum-taken-over-carrier-admissible-domains-only"
 						}
+					}
+					if strings.HasPrefix(forceZero, "new node") && strings.Contains(forceZero, "\"fresh-") {
+						class = "spread-maxskew-exceeded:new-node-of-pool-with-Exists-or-NotIn-custom-key-opens-unforeseen-domain"
 					}
 					bad = &IPFinding{
 						Class: class,
